@@ -829,3 +829,133 @@ Example missing_example :
   let c := (cmd_new [112]) <| c_args := [a] |> in
   validate c matcher_new = VErr EMissingRequiredArgument [97].
 Proof. vm_compute. reflexivity. Qed.
+
+(** * 5. unknown-token triage: [parse_long_arg], [short_loop], [match_arg_error] *)
+
+Lemma react_core_ok_result c idn s a raw ti st st1 pr :
+  react_core c idn s a raw ti st = ROk (st1, pr) -> pr = PRValuesDone.
+Proof.
+  unfold react_core. intros H.
+  destruct (if is_cmdline s then verify_num_args c a raw st else ROk tt) as [[]|e0 s0|p0]; cbn [rbind] in H;
+    try discriminate H.
+  match type of H with (let '(_, _) := ?p in _) = _ => destruct p as [raw1 ti1] end.
+  destruct (expect 1184 (delimit c a raw1 ti1)) as [raw2|e1 s1|p1]; cbn [rbind] in H; try discriminate H.
+  destruct (a_get_action a);
+    repeat match type of H with
+           | (let '(_, _) := ?p in _) = _ => destruct p
+           | (if ?b then _ else _) = _ => destruct b
+           | rbind ?r _ = _ => destruct r; cbn [rbind] in H
+           end; try discriminate H; injection H as _ <-; reflexivity.
+Qed.
+
+Lemma react_ok_result c idn s a raw ti st st1 pr :
+  react c idn s a raw ti st = ROk (st1, pr) -> pr = PRValuesDone.
+Proof.
+  unfold react. destruct (resolve_pending c st); cbn [rbind]; try discriminate. apply react_core_ok_result.
+Qed.
+
+Definition not_no_match (pr : presult) : Prop := match pr with PRNoMatchingArg _ => False | _ => True end.
+
+Lemma parse_opt_value_ok_result c idn att a has_eq st st1 pr :
+  parse_opt_value c idn att a has_eq st = ROk (st1, pr) -> not_no_match pr.
+Proof.
+  unfold parse_opt_value. intros H.
+  destruct (a_req_eq a && negb has_eq).
+  - destruct (a_num a) as [r|]; cbn [expect rbind] in H; [|discriminate H].
+    destruct (vmin r =? 0).
+    + destruct (react c (Some idn) SCmdLine a [] None st) as [[s2 p2]| |]; cbn [rbind] in H; try discriminate H.
+      injection H as _ <-. destruct (is_some att); exact I.
+    + injection H as _ <-. exact I.
+  - destruct att as [v|].
+    + destruct (react c (Some idn) SCmdLine a [v] None st) as [[s2 p2]| |]; cbn [rbind] in H; try discriminate H.
+      injection H as _ <-. exact I.
+    + destruct (resolve_pending c st); cbn [rbind] in H; try discriminate H.
+      destruct (pending_values_push _ _ _ _ _); cbn [expect rbind] in H; try discriminate H.
+      injection H as _ <-. exact I.
+Qed.
+
+(** a long flag is reported as matching nothing only if it really is no key of the command: its
+    spelling is not UTF-8, or it is neither a long/alias of an argument nor a long flag of a
+    subcommand (the token is [--flag] or [--flag=value]) *)
+Theorem parse_long_no_match_sound c flag ok value pst pc vaf st st1 a vaf1 :
+  parse_long_arg c flag ok value pst pc vaf st = ROk (st1, PRNoMatchingArg a, vaf1) ->
+  a = flag /\ st1 = st /\
+  (ok = false \/ (get_long c flag = None /\ possible_long_flag_subcommand c flag = None)).
+Proof.
+  unfold parse_long_arg. intros H.
+  destruct (state_arg c pst) as [sa|e0 s0|p0]; cbn [rbind] in H; try discriminate H.
+  destruct (match sa with Some a0 => a_hyphen a0 | None => false end); [discriminate H|].
+  destruct ok; cbn [negb] in H; [|injection H as <- <- _; repeat split; left; reflexivity].
+  destruct (is_nil flag && negb (is_some value)); [discriminate H|].
+  destruct (get_long c flag) as [ga|] eqn:Eg.
+  - (* found: never a no-match result *)
+    destruct (a_takes_value ga).
+    + destruct (parse_opt_value c ILong value ga (is_some value) st) as [[s2 p2]| |] eqn:Ep; cbn [rbind] in H;
+        try discriminate H. injection H as _ Hp _. apply parse_opt_value_ok_result in Ep. cbn [snd] in Hp.
+      rewrite Hp in Ep. destruct Ep.
+    + destruct value; [discriminate H|].
+      destruct (react c (Some ILong) SCmdLine ga [] None st) as [[s2 p2]| |] eqn:Er; cbn [rbind] in H; try discriminate H.
+      injection H as _ Hp _. apply react_ok_result in Er. cbn [snd] in Hp. congruence.
+  - match type of H with
+    | match ?found with _ => _ end = _ => destruct found as [fa|] eqn:Ef
+    end.
+    + destruct (a_takes_value fa).
+      * destruct (parse_opt_value c ILong value fa (is_some value) st) as [[s2 p2]| |] eqn:Ep; cbn [rbind] in H;
+          try discriminate H. injection H as _ Hp _. apply parse_opt_value_ok_result in Ep. cbn [snd] in Hp.
+        rewrite Hp in Ep. destruct Ep.
+      * destruct value; [discriminate H|].
+        destruct (react c (Some ILong) SCmdLine fa [] None st) as [[s2 p2]| |] eqn:Er; cbn [rbind] in H; try discriminate H.
+        injection H as _ Hp _. apply react_ok_result in Er. cbn [snd] in Hp. congruence.
+    + destruct (possible_long_flag_subcommand c flag) eqn:Es; [discriminate H|].
+      destruct (match get_pos c pc with Some a0 => a_hyphen a0 && negb (a_last a0) | None => false end); [discriminate H|].
+      injection H as <- <- _. repeat split. right. split; reflexivity.
+Qed.
+
+(** a short flag is reported as matching nothing only if the character is neither a short/alias of
+    an argument nor a short flag of a subcommand (or the cluster is not UTF-8 at that point) *)
+Theorem short_loop_no_match_sound c : forall fuel r ret vaf st st1 a vaf1,
+  not_no_match ret ->
+  short_loop c fuel r ret vaf st = ROk (st1, PRNoMatchingArg a, vaf1) ->
+  (exists ch, a = DASH :: encode_utf8 ch /\ get_short c ch = None /\ find_short_subcmd c ch = None)
+  \/ (exists r' rest, sf_next r' = Some (inr rest, []) /\ a = DASH :: rest).
+Proof.
+  induction fuel as [|f IH]; intros r ret vaf st st1 a vaf1 Hret H; cbn [short_loop] in H; [discriminate H|].
+  destruct (sf_next r) as [[[ch|rest] r']|] eqn:En.
+  - destruct (get_short c ch) as [ga|] eqn:Eg.
+    + destruct (negb (a_takes_value ga)).
+      * destruct (react c (Some IShort) SCmdLine ga [] None st) as [[s2 p2]| |] eqn:Er; cbn [rbind] in H; try discriminate H.
+        apply react_ok_result in Er. subst p2. cbn [fst snd] in H. eapply IH; [|exact H]. exact I.
+      * match type of H with
+        | (let '(_, _) := ?p in _) = _ => destruct p as [val has_eq]
+        end.
+        destruct (parse_opt_value c IShort val ga has_eq st) as [[s2 p2]| |] eqn:Ep; cbn [rbind] in H; try discriminate H.
+        apply parse_opt_value_ok_result in Ep. cbn [fst snd] in H.
+        destruct p2; try (injection H as _ Hp _; discriminate Hp); try (destruct Ep).
+        eapply IH; [|exact H]. exact Hret.
+    + destruct (find_short_subcmd c ch) eqn:Es.
+      * destruct (resolve_pending c st); cbn [rbind] in H; try discriminate H.
+      * injection H as _ <- _. left. exists ch. repeat split; assumption.
+  - assert (r' = []).
+    { unfold sf_next in En. destruct r; [discriminate En|]. destruct (utf8_step (n :: r)) as [[? ?]|]; [discriminate En|].
+      injection En as _ <-. reflexivity. }
+    subst r'. injection H as _ <- _. right. exists r, rest. split; [exact En|reflexivity].
+  - injection H as _ Hp _. rewrite Hp in Hret. destruct Hret.
+Qed.
+
+(** the last resort: which kinds [match_arg_error] can report, and when *)
+Theorem match_arg_error_kinds c tok vaf trailing :
+  let e := match_arg_error c tok vaf trailing in
+  e_arg e = tok /\
+  (e_kind e = EUnknownArgument
+   \/ (e_kind e = EInvalidSubcommand /\ has_subcommands c = true)
+   \/ (e_kind e = EArgumentConflict /\ has_subcommands c = true /\ is_set s_args_negate_subs c = true /\ vaf = true)).
+Proof.
+  unfold match_arg_error. cbv zeta.
+  destruct (trailing && is_some (possible_subcommand c tok vaf)); [split; [reflexivity|left; reflexivity]|].
+  destruct (has_subcommands c) eqn:Eh; [|split; [reflexivity|left; reflexivity]].
+  destruct (is_set s_args_negate_subs c && vaf) eqn:En.
+  - apply andb_true_iff in En. destruct En as [E1 E2]. split; [reflexivity|]. right; right. repeat split; assumption.
+  - destruct (negb (has_positionals c) || is_set s_infer_sub c).
+    + split; [reflexivity|]. right; left. split; reflexivity.
+    + split; [reflexivity|]. left. reflexivity.
+Qed.
